@@ -32,6 +32,7 @@ CONSTANTS
   NBlocks = 64
   SessionLen = 0
 INVARIANT TableWellFormed
+INVARIANT WholeTableWellFormed
 INVARIANT HistoryIsSequence
 INVARIANT UnitCube
 INVARIANT ClosedForm
@@ -124,9 +125,14 @@ def drive(recipe):
         rec = {"route": route, "method": method, "a": a, "b": b, "c": c, "exc": "", "ndim": 0,
                "nrows": 0, "ncols": 0, "rows": [], "lo": [], "offgrid": False}
         try:
-            out, text = _do_call(call)
+            ret, text = _do_call(call)
             impl.append(text)
-            out = np.asarray(out)
+            out = np.array(ret, copy=True)
+            # a caller may do what it likes with the array it was handed (rescale it in place, ...): later answers must
+            # still depend only on (seed, dimension)
+            if isinstance(ret, np.ndarray) and ret.flags.writeable and ret.size:
+                ret *= 2.0
+                ret -= 7.0
             rec["ndim"] = int(out.ndim)
             if out.ndim == 1:
                 rec["nrows"], rec["ncols"] = 1, int(out.shape[0])
@@ -232,7 +238,7 @@ def run(ctx, explain=False):
         f = os.path.join(d, "sobol.json")
         rows = table_rows(dims)
         walks = [[i + 1] for i in range(len(dims))] + [[dims.index(1) + 1, dims.index(2) + 1]]
-        tlc.write_json(f, {"rows": rows, "walks": walks, "calls": []})
+        tlc.write_json(f, {"rows": rows, "walks": walks, "calls": [], "allrows": table_rows(range(1, 1001))})
         ctx.model_check("mc/MC_QuasiRandom.tla", MC_CFG % (BITS, maxm),
                         name="MC_QuasiRandom(table, %d dims, m<=%d)" % (len(dims), maxm),
                         data_driven=True, env={"SOBOL_FILE": f}, timeout=1500)
